@@ -12,14 +12,23 @@ REGISTRATION = {
             "verification before Link, Link last), of the handlePull retry loop and of both push implementations, for "
             "every manifest, chunk plan, fault script (status, short/corrupt/reset body, broken list, cancellation, "
             "read timeout), completion order, MaxStreams and history. Full strength for the tree: Pull = ok implies "
-            "every layer file has exactly the manifest's size and whole-file digest (pull_success_verified), a failed "
-            "pull never changes a link, manifest PUT last on both push paths. For the proposed staged-chunk variant "
-            "also: no pull damages a verified blob, and 'every linked name is verified' is an invariant of every "
-            "history. The model is tied to the code on every run: the real client is driven against an in-memory "
+            "every layer file has exactly the manifest's size and whole-file digest (pull_success_verified, any starting "
+            "cache), the name is linked last, a failed pull never changes a link (every history, also through the retry "
+            "loop; an attempt killed mid-way is Outcome.stuck and counts as failed), manifest PUT last on both push paths "
+            "and only after every blob of the manifest, config included, was accepted (push_manifest_after_every_blob). "
+            "The completeness invariant 'every linked name's layers are verified' is FALSE on the tree for arbitrary "
+            "manifests (finding F10d, witness F10d_breaks_unguarded_invariant_on_tree); it is proved for every history "
+            "in which sizes are a function of the digest (history_linked_layers_verified_tree, no assumption on the "
+            "hash), and unconditionally for the proposed staged-chunk variant. The tree's variant is pinned in Lean "
+            "(tree_verifies, tree_pushes_config over Generated/C09_Variant.lean written from probes of the real code) "
+            "and the headline theorems are instantiated for it. The model is tied to the code on every run: the real client is driven against an in-memory "
             "registry whose chunk answers are released in a scripted order under testing/synctest; per-attempt "
             "result, waiting-request counts, link, blob bytes and staging-file bytes are compared exactly with the "
-            "model (tree variant selected by probes of the real code); canRetry is tied by a table regenerated from "
-            "the real handlePull; the property itself (exact size + SHA-256 of every layer of every linked name "
+            "model (tree variant selected by probes of the real code; a probe that finds a repaired finding regressed is "
+            "a violation); every branch of the Pull model must be reached by an L1-agreeing case of the run "
+            "(correspondence-coverage over branch tags of a traced model proved equal to the model); canRetry, "
+            "sendRequest's status test, net/http's redirect behaviour and makeRequestWithRetry are tied by tables "
+            "regenerated from the real code over their whole finite domains; the property itself (exact size + SHA-256 of every layer of every linked name "
             "after every attempt; manifest PUT last) is evaluated on the real cache and the real request log.",
     "design_ref": "DESIGN.md §5 C09, §6 F10",
     "note": COMMON_NOTE + "Modelled, not verified: SHA-256 as an uninterpreted function (the oracle represents a "
@@ -31,19 +40,22 @@ REGISTRATION = {
             "request kind of pull and of both push paths is answered from the whole status alphabet (1xx, 2xx, "
             "3xx with/without Location, 4xx, 5xx) and net/http's redirect handling per method and body kind is "
             "part of the model (`follow`, measured by exact L1 incl. an exhaustive first-answer enumeration); "
+            "transport failure as an answer to any push request and cancellation of the caller's context during a "
+            "new-client push are driven; the chunksums text parser is modelled for ASCII bodies "
+            "(Model/RegistryChunksums.lean, parseBody_valid) and tied by its own L1 leg; "
             "legacy push: single-part uploads only (files < 100 MB); two concurrent pushes sharing one upload "
             "through blobUploadManager are modelled and driven (the second joins while the first one's session POST "
             "is held), more than two or a join at another moment are not; not scripted: 401 (token dance), a final 201 "
             "to the upload POST and a final 307 to a PATCH try (both can block the real code for ever). "
             "Finding F19 (blobUpload.Run died on a nil part hash when its context was cancelled before a part started) is "
-            "repaired in /repo (76b38d743); known: "
+            "repaired in /repo (76b38d743), finding F30 (Registry.Push never offered the config blob) in ed2a637ee; known: "
             "finding F18 (legacy push takes every final status < 400 for a success; "
             "proposed_fixes/C09-F18-legacy-push-require-2xx.patch, model flag `strict` selected by a probe) and "
             "finding F10d (Chunked writes into the final blob file) is open on /repo; "
             "proposed_fixes/C09-F10d-stage-chunked-blob.patch repairs it and the check passes on both trees.",
 }
 
-MODULES = ["OllamaVerif.Properties.C09", "OllamaVerif.Properties.C09Tree", "OllamaVerif.Tie.C09"]
+MODULES = ["OllamaVerif.Properties.C09", "OllamaVerif.Properties.C09Tree", "OllamaVerif.Properties.C09Chunksums", "OllamaVerif.Tie.C09"]
 THEOREMS = [
     "OllamaVerif.C09.put_ok_verified",
     "OllamaVerif.C09.put_whole_layer_verified",
@@ -101,6 +113,11 @@ THEOREMS = [
     "OllamaVerif.C09.F10d_breaks_unguarded_invariant_on_tree",
     "OllamaVerif.C09.linkedVerifiedSized_empty",
     "OllamaVerif.C09.pull_links_other",
+    "OllamaVerif.C09.handlePull_success_last_attempt_verified",
+    # the chunksums response parser
+    "OllamaVerif.C09.parseChunk_valid",
+    "OllamaVerif.C09.parseDigest_length",
+    "OllamaVerif.C09.parseBody_valid",
     # the branch tracing the coverage gate rests on IS the model
     "OllamaVerif.C09.advanceT_fst",
     "OllamaVerif.C09.stepT_fst",
@@ -116,6 +133,7 @@ OVERLAY = {"server/internal/client/ollama/zz_verif_c09_test.go": "server_interna
 OVERLAY_LEGACY = {"server/zz_verif_c09_push_test.go": "server/zz_verif_c09_push_test.go"}
 
 
+OVERLAY_CHUNKSUMS = {"server/internal/client/ollama/zz_verif_c09_chunksums_test.go": "server_internal_client_ollama/zz_verif_c09_chunksums_test.go"}
 OVERLAY_RETRY = {"server/internal/registry/zz_verif_c09_retry_test.go": "server_internal_registry/zz_verif_c09_retry_test.go"}
 
 
@@ -348,7 +366,7 @@ def run(ctx):
         path = ctx.replay_line_file()
         env["VERIF_REPLAY"] = path
         head = open(path).read()
-        replay_kind = "seq" if "kind=seq" in head else "shared" if "kind=shared" in head else "legacy" if "kind=legacy" in head else ("handler" if "kind=handler" in head else "client")
+        replay_kind = "chunksums" if "kind=chunksums" in head else "seq" if "kind=seq" in head else "shared" if "kind=shared" in head else "legacy" if "kind=legacy" in head else ("handler" if "kind=handler" in head else "client")
     if replay_kind in (None, "client"):
         rc, out, outdir = ctx.go_test("./server/internal/client/ollama/", OVERLAY, "^TestVerifC09$", env=env)
         if rc != 0:
@@ -357,6 +375,16 @@ def run(ctx):
         leg_cases(ctx, "client", ctx.l1(outdir, label="client"), 1000)
         l1_inputs(ctx, outdir)
         model_branch_coverage(ctx, outdir)
+        ctx.classify(ctx.l2(outdir))
+    if replay_kind in (None, "chunksums"):
+        # the chunksums response parser: real Registry.chunksums iterator vs Chunksums.parseBody
+        rc, out, outdir = ctx.go_test("./server/internal/client/ollama/", OVERLAY_CHUNKSUMS, "^TestVerifC09Chunksums$",
+                                      env=dict(env, VERIF_NCS=ctx.scale(1500, 30000)))
+        if rc != 0:
+            ctx.violation("driver-failed", "", out[-1500:], no_input=True)
+        ctx.read_stats(outdir)
+        leg_cases(ctx, "chunksums", ctx.l1(outdir, label="chunksums"), 1000)
+        l1_inputs(ctx, outdir)
         ctx.classify(ctx.l2(outdir))
     if replay_kind in (None, "legacy"):
         env2 = dict(env)
